@@ -578,7 +578,7 @@ Section RoundTrip.
     destruct (dec_head v ltac:(lia)) as (c0 & r0 & E0 & D0). rewrite E0 in *.
     destruct un as [|u0 ur]; [congruence|]. inversion ND as [|u0' ur' N0 Nr]; subst u0' ur'.
     destruct (not_dd_not_digit u0 N0) as [N0d N0p].
-    rewrite <- !app_assoc. cbn [app]. unfold parse_component.
+    rewrite <- !app_assoc. cbn [app]. unfold parse_component, scan_component.
     rewrite (is_dd_digit c0 D0). cbn [negb]. unfold leading_int.
     change (c0 :: r0 ++ ft ++ u0 :: ur ++ rest) with ((c0 :: r0) ++ (ft ++ u0 :: ur ++ rest)).
     assert (VU : v * unit <= two63) by lia.
@@ -880,3 +880,227 @@ Section RoundTrip.
       destruct (d >? two63 - 1) eqn:EG; [lia|]. rewrite i64_small by lia. reflexivity.
   Qed.
 End RoundTrip.
+(* ---------- logg's parser against the standard one: the day unit is the only difference ---------- *)
+Lemma bytes_eqb_eq : forall a b, bytes_eqb a b = true <-> a = b.
+Proof.
+  unfold bytes_eqb, byte_eqb. induction a as [|x a IH]; intros [|y b]; cbn [list_eqb]; split; intros H;
+    try reflexivity; try discriminate.
+  - apply andb_true_iff in H. destruct H as [H1 H2]. apply Byte.byte_dec_bl in H1. apply IH in H2. congruence.
+  - injection H as -> ->. apply andb_true_iff. split; [apply Byte.byte_dec_lb; reflexivity|apply IH; reflexivity].
+Qed.
+
+Lemma lookup_without_day : forall units u,
+  lookupB (without_day units) u = if bytes_eqb u [x64] then None else lookupB units u.
+Proof.
+  induction units as [|[k v] t IH]; intros u; cbn [without_day filter lookupB fst].
+  - destruct (bytes_eqb u [x64]); reflexivity.
+  - fold (without_day t). destruct (bytes_eqb k [x64]) eqn:Ek; cbn [negb].
+    + rewrite IH. destruct (bytes_eqb u [x64]) eqn:Eu; [reflexivity|].
+      destruct (bytes_eqb k u) eqn:Eku; [|reflexivity].
+      apply bytes_eqb_eq in Ek. apply bytes_eqb_eq in Eku. subst k. subst u. vm_compute in Eu. discriminate.
+    + cbn [lookupB]. rewrite IH. destruct (bytes_eqb k u) eqn:Eku; [|reflexivity].
+      apply bytes_eqb_eq in Eku. subst k. rewrite Ek. reflexivity.
+Qed.
+
+(* what the scan of one component does to the day-token test *)
+Definition tok_next (st : tok) (c : byte) : tok :=
+  match st with T0 => if byte_eqb c x64 then Td else Tx | _ => Tx end.
+
+Lemma day_scan_nodd : forall c t st, is_dd c = false -> day_scan st (c :: t) = day_scan (tok_next st c) t.
+Proof. intros c t st H. cbn [day_scan]. rewrite H. destruct st; reflexivity. Qed.
+
+Lemma day_scan_dd : forall c t, is_dd c = true -> day_scan T0 (c :: t) = day_scan T0 t.
+Proof. intros c t H. cbn [day_scan]. rewrite H. reflexivity. Qed.
+
+Lemma unit_span_scan : forall s st u s3, unit_span s = (u, s3) ->
+  day_scan st s = tok_is_d (fold_left tok_next u st) || day_scan T0 s3.
+Proof.
+  induction s as [|c t IH]; intros st u s3 H.
+  - cbn [unit_span] in H. injection H as <- <-. cbn [fold_left day_scan]. rewrite orb_false_r. reflexivity.
+  - cbn [unit_span] in H. destruct (is_dd c) eqn:E.
+    + injection H as <- <-. cbn [fold_left]. cbn [day_scan]. rewrite E. reflexivity.
+    + destruct (unit_span t) as [u' r] eqn:EU. injection H as <- <-.
+      rewrite day_scan_nodd by assumption. cbn [fold_left]. apply IH. reflexivity.
+Qed.
+
+Lemma fold_tok_Tx : forall u, fold_left tok_next u Tx = Tx.
+Proof. induction u as [|c t IH]; cbn [fold_left tok_next]; [reflexivity|assumption]. Qed.
+
+Lemma tok_of_unit : forall u, tok_is_d (fold_left tok_next u T0) = bytes_eqb u [x64].
+Proof.
+  intros [|c [|c2 r]].
+  - reflexivity.
+  - cbn [fold_left tok_next]. unfold bytes_eqb. cbn [list_eqb]. rewrite andb_true_r.
+    destruct (byte_eqb c x64); reflexivity.
+  - cbn [fold_left tok_next]. unfold bytes_eqb. cbn [list_eqb]. rewrite andb_false_r.
+    destruct (byte_eqb c x64); rewrite fold_tok_Tx; reflexivity.
+Qed.
+
+Lemma leading_int_scan : forall s x v s1, leading_int_from x s = Some (v, s1) ->
+  day_scan T0 s = day_scan T0 s1 /\ (length s1 <= length s)%nat.
+Proof.
+  induction s as [|c t IH]; intros x v s1 H; cbn [leading_int_from] in H.
+  - injection H as <- <-. split; [reflexivity|lia].
+  - destruct (is_digit c) eqn:E.
+    + destruct (x >? two63 / 10); [discriminate|].
+      destruct (_ >? two63); [discriminate|]. apply IH in H. destruct H as [H1 H2].
+      rewrite day_scan_dd by (apply is_dd_digit; assumption). cbn [length]. split; [assumption|lia].
+    + injection H as <- <-. split; [reflexivity|lia].
+Qed.
+
+Lemma leading_fraction_scan : forall s x sc o f scale r, leading_fraction_from x sc o s = (f, scale, r) ->
+  day_scan T0 s = day_scan T0 r /\ (length r <= length s)%nat.
+Proof.
+  induction s as [|c t IH]; intros x sc o f scale r H; cbn [leading_fraction_from] in H.
+  - injection H as <- <- <-. split; [reflexivity|lia].
+  - destruct (is_digit c) eqn:E.
+    + rewrite day_scan_dd by (apply is_dd_digit; assumption). cbn [length].
+      destruct o; [|destruct (x >? (two63 - 1) / 10); [|destruct (_ >? two63)]];
+        apply IH in H; destruct H as [H1 H2]; (split; [assumption|lia]).
+    + injection H as <- <- <-. split; [reflexivity|lia].
+Qed.
+
+Lemma unit_span_length : forall s u s3, unit_span s = (u, s3) -> length s = (length u + length s3)%nat.
+Proof.
+  induction s as [|c t IH]; intros u s3 H; cbn [unit_span] in H.
+  - injection H as <- <-. reflexivity.
+  - destruct (is_dd c).
+    + injection H as <- <-. reflexivity.
+    + destruct (unit_span t) as [u' r] eqn:EU. injection H as <- <-. cbn [length]. rewrite (IH u' r eq_refl). lia.
+Qed.
+
+Lemma scan_component_spec : forall s v f scale u s3, scan_component s = Some (v, f, scale, u, s3) ->
+  day_scan T0 s = bytes_eqb u [x64] || day_scan T0 s3 /\ (length s3 < length s)%nat.
+Proof.
+  intros s v f scale u s3 H. unfold scan_component in H.
+  destruct s as [|c t]; [discriminate|]. destruct (negb (is_dd c)); [discriminate|].
+  unfold leading_int in H. destruct (leading_int_from 0 (c :: t)) as [[v' s1]|] eqn:EL; [|discriminate].
+  apply leading_int_scan in EL. destruct EL as [S1 L1].
+  assert (X : exists f' sc' post s2, (match s1 with
+            | c1 :: t1 => if byte_eqb c1 x2e
+                          then let '(f0, scale0, r) := leading_fraction t1 in (f0, scale0, negb (Nat.eqb (length t1) (length r)), r)
+                          else (0, 1%float, false, s1)
+            | [] => (0, 1%float, false, s1) end) = (f', sc', post, s2)
+            /\ day_scan T0 s1 = day_scan T0 s2 /\ (length s2 <= length s1)%nat).
+  { destruct s1 as [|c1 t1]; [do 4 eexists; split; [reflexivity|split; [reflexivity|lia]]|].
+    destruct (byte_eqb c1 x2e) eqn:E1.
+    - unfold leading_fraction. destruct (leading_fraction_from 0 1%float false t1) as [[f0 sc0] r] eqn:EF.
+      apply leading_fraction_scan in EF. destruct EF as [S2 L2].
+      do 4 eexists. split; [reflexivity|]. split.
+      + rewrite day_scan_dd; [assumption|]. unfold is_dd. rewrite E1. reflexivity.
+      + cbn [length]. lia.
+    - do 4 eexists. split; [reflexivity|split; [reflexivity|lia]]. }
+  destruct X as (f' & sc' & post & s2 & EX & S2 & L2). rewrite EX in H.
+  destruct (negb _ && negb post); [discriminate|].
+  destruct (unit_span s2) as [u' r] eqn:EU. destruct u' as [|u0 ur]; [discriminate|].
+  injection H as <- <- <- <- <-.
+  pose proof (unit_span_scan s2 T0 _ _ EU) as S3. rewrite tok_of_unit in S3.
+  pose proof (unit_span_length s2 _ _ EU) as L3. cbn [length] in L3.
+  split; [congruence|lia].
+Qed.
+
+Section Agree.
+  Variable fop : Z -> Z -> float -> Z.
+  Variable units : list (bytes * Z).
+
+  Lemma parse_loop_same : forall fuel s d, day_scan T0 s = false ->
+    parse_loop fop (without_day units) fuel s d = parse_loop fop units fuel s d.
+  Proof.
+    induction fuel as [|f IH]; intros s d H; destruct s as [|c t]; cbn [parse_loop]; try reflexivity.
+    unfold parse_component. destruct (scan_component (c :: t)) as [[[[[v fr] sc] u] s3]|] eqn:ES; [|reflexivity].
+    apply scan_component_spec in ES. destruct ES as [S _]. rewrite H in S. symmetry in S.
+    apply orb_false_iff in S. destruct S as [Su S3].
+    rewrite lookup_without_day, Su.
+    destruct (lookupB units u) as [unit|]; [|reflexivity].
+    destruct (unit =? 0); [reflexivity|]. destruct (v >? two63 / unit); [reflexivity|].
+    destruct (_ && _); [reflexivity|]. cbv zeta. destruct (_ >? two63); [reflexivity|]. apply IH. assumption.
+  Qed.
+
+  Lemma parse_loop_superset : forall fuel s d r,
+    parse_loop fop (without_day units) fuel s d = Ok r -> parse_loop fop units fuel s d = Ok r.
+  Proof.
+    induction fuel as [|f IH]; intros s d r H; destruct s as [|c t]; cbn [parse_loop] in *; try assumption.
+    unfold parse_component in *. destruct (scan_component (c :: t)) as [[[[[v fr] sc] u] s3]|]; [|assumption].
+    rewrite lookup_without_day in H. destruct (bytes_eqb u [x64]); [discriminate|].
+    destruct (lookupB units u) as [unit|]; [|assumption].
+    destruct (unit =? 0); [assumption|]. destruct (v >? two63 / unit); [assumption|].
+    destruct (_ && _); [assumption|]. cbv zeta in *. destruct (_ >? two63); [assumption|]. apply IH. assumption.
+  Qed.
+
+  Lemma parse_loop_fuel : forall fuel s d, (length s <= fuel)%nat -> parse_loop fop units fuel s d <> OutOfFuel.
+  Proof.
+    induction fuel as [|f IH]; intros s d L; destruct s as [|c t]; cbn [parse_loop]; try discriminate.
+    - cbn [length] in L. lia.
+    - unfold parse_component. destruct (scan_component (c :: t)) as [[[[[v fr] sc] u] s3]|] eqn:ES; [|discriminate].
+      apply scan_component_spec in ES. destruct ES as [_ L3].
+      destruct (lookupB units u) as [unit|]; [|discriminate].
+      destruct (unit =? 0); [discriminate|]. destruct (v >? two63 / unit); [discriminate|].
+      destruct (_ && _); [discriminate|]. cbv zeta. destruct (_ >? two63); [discriminate|]. apply IH. lia.
+  Qed.
+
+  Lemma parse_loop_no_panic : forall fuel s d, Forall (fun p : bytes * Z => snd p <> 0) units ->
+    parse_loop fop units fuel s d <> Panic.
+  Proof.
+    intros fuel s d NZ.
+    assert (LK : forall u unit, lookupB units u = Some unit -> unit <> 0).
+    { clear -NZ. induction units as [|[k v] t IH]; intros u unit H; cbn [lookupB] in H; [discriminate|].
+      inversion NZ as [|p t' Hp Ht]; subst. destruct (bytes_eqb k u); [injection H as <-; exact Hp|eauto]. }
+    revert s d. induction fuel as [|f IH]; intros s d; destruct s as [|c t]; cbn [parse_loop]; try discriminate.
+    unfold parse_component. destruct (scan_component (c :: t)) as [[[[[v fr] sc] u] s3]|]; [|discriminate].
+    destruct (lookupB units u) as [unit|] eqn:EL; [|discriminate].
+    apply LK in EL. destruct (unit =? 0) eqn:E0; [lia|]. destruct (v >? two63 / unit); [discriminate|].
+    destruct (_ && _); [discriminate|]. cbv zeta. destruct (_ >? two63); [discriminate|]. apply IH.
+  Qed.
+
+  Lemma strip_sign_split : forall s,
+    (match s with
+     | c :: t => if byte_eqb c x2d || byte_eqb c x2b then (byte_eqb c x2d, t) else (false, s)
+     | [] => (false, s)
+     end) = (match s with c :: _ => (byte_eqb c x2d || byte_eqb c x2b) && byte_eqb c x2d | [] => false end, strip_sign s).
+  Proof. intros [|c t]; [reflexivity|]. unfold strip_sign. destruct (byte_eqb c x2d || byte_eqb c x2b); reflexivity. Qed.
+
+  Theorem parse_same_without_day : forall s, uses_day_unit s = false ->
+    parse_dur_with fop (without_day units) s = parse_dur_with fop units s.
+  Proof.
+    intros s H. unfold parse_dur_with, uses_day_unit in *. rewrite strip_sign_split.
+    destruct (bytes_eqb (strip_sign s) [x30]); [reflexivity|].
+    destruct (strip_sign s) as [|c t] eqn:E; [reflexivity|]. rewrite parse_loop_same by assumption. reflexivity.
+  Qed.
+
+  Theorem parse_superset : forall s r,
+    parse_dur_with fop (without_day units) s = Ok r -> parse_dur_with fop units s = Ok r.
+  Proof.
+    intros s r H. unfold parse_dur_with in *. rewrite strip_sign_split in *.
+    destruct (bytes_eqb (strip_sign s) [x30]); [assumption|].
+    destruct (strip_sign s) as [|c t] eqn:E; [assumption|].
+    destruct (parse_loop fop (without_day units) (length (c :: t)) (c :: t) 0) as [d| | |] eqn:EP; try discriminate.
+    rewrite (parse_loop_superset _ _ _ _ EP). assumption.
+  Qed.
+
+  Theorem parse_only_day : forall s r, parse_dur_with fop units s = Ok r ->
+    parse_dur_with fop (without_day units) s = Ok r \/ uses_day_unit s = true.
+  Proof.
+    intros s r H. destruct (uses_day_unit s) eqn:E; [right; reflexivity|left].
+    rewrite parse_same_without_day; assumption.
+  Qed.
+
+  Theorem parse_no_fuel_out : forall s, parse_dur_with fop units s <> OutOfFuel.
+  Proof.
+    intros s. unfold parse_dur_with. rewrite strip_sign_split.
+    destruct (bytes_eqb (strip_sign s) [x30]); [discriminate|].
+    destruct (strip_sign s) as [|c t] eqn:E; [discriminate|].
+    pose proof (parse_loop_fuel (length (c :: t)) (c :: t) 0 (le_n _)) as F.
+    destruct (parse_loop fop units (length (c :: t)) (c :: t) 0); try congruence; try discriminate.
+    match goal with |- (if ?b then _ else _) <> _ => destruct b end; [discriminate|]. destruct (_ >? _); discriminate.
+  Qed.
+
+  Theorem parse_no_panic : forall s, Forall (fun p : bytes * Z => snd p <> 0) units -> parse_dur_with fop units s <> Panic.
+  Proof.
+    intros s NZ. unfold parse_dur_with. rewrite strip_sign_split.
+    destruct (bytes_eqb (strip_sign s) [x30]); [discriminate|].
+    destruct (strip_sign s) as [|c t] eqn:E; [discriminate|].
+    pose proof (parse_loop_no_panic (length (c :: t)) (c :: t) 0 NZ) as F.
+    destruct (parse_loop fop units (length (c :: t)) (c :: t) 0); try congruence; try discriminate.
+    match goal with |- (if ?b then _ else _) <> _ => destruct b end; [discriminate|]. destruct (_ >? _); discriminate.
+  Qed.
+End Agree.
